@@ -1,7 +1,10 @@
 (* C12 — liquid staking: derivatives are backed, redeemable and vote like their stake.
-   Property theorems only; proofs are in Proofs/Liquid.v.  Where the full statement is
-   false of the faithful model there is a [_refuted] witness (closed, vm_compute) and
-   the strongest true statement as [_partial]. *)
+   Property theorems only; proofs are in Proofs/Liquid.v.  The model follows /repo after the
+   three fix commits (MintDerivative mints at most the shares the module received;
+   TransferDelegation re-delegates nothing when no whole token was unbonded; the tally skips
+   derivatives of validators outside the bonded set).  Where a clause is still false of the
+   faithful model there is a [_refuted] witness (closed, vm_compute) next to the strongest true
+   statement. *)
 From Kava Require Import Base.Prelude Base.Dec Model.Staking Model.Tally Model.Liquid Proofs.Liquid.
 Local Open Scope Z_scope.
 
@@ -17,30 +20,38 @@ Definition w_init : state :=
     [5000; 0; 0; 0; 0].
 Definition w_slash7 : op := Slash 0%nat 2000 70000000000000000.     (* 7 % of 2000 * 10^6 *)
 
-Definition backed (e : env) (s : state) (i : nat) : Prop := dsup s i * PREC <= dshares s (liq e) i.
+(** ** the model invariant holds after every history (and implies the boolean form evaluated
+    on every model state of the correspondence run) *)
+Theorem C12_invariant_all_histories :
+  forall e ops s, env_wf e -> Inv e s -> Inv e (run e s ops) /\ inv_b e (run e s ops) = true.
+Proof. intros e ops s Hwf HI. pose proof (run_inv e ops s Hwf HI) as H. split; [exact H|]. now apply inv_b_of_Inv. Qed.
+Print Assumptions C12_invariant_all_histories.
 
-(** ** backing: supply of bkava-v never exceeds the module account's delegation shares *)
+(** ** backing: for every validator the supply of its derivative never exceeds the delegation
+    shares held by the module account — for every history (slashed, jailed, unbonding and
+    unbonded validators, all amounts, all interleavings of the modelled operations) *)
+Theorem C12_backing :
+  forall e ops s, backed_all e s -> backed_all e (run e s ops).
+Proof. exact run_backed. Qed.
+Print Assumptions C12_backing.
 
-(* Refuted on a slashed validator: after a 7 % slash, MintDerivative(4 ukava) mints 4 units while
-   the module's delegation grows by 3.2258... shares. *)
-Theorem C12_backing_refuted :
-  exists ops, inv_b w_env w_init = true /\ backed w_env w_init 0%nat /\
-              ~ backed w_env (run w_env w_init ops) 0%nat.
+(* non-vacuity: the slashed-validator history that broke backing before the fix *)
+Example C12_backing_nonvacuous :
+  backed_all w_env w_init /\
+  let s := run w_env w_init [w_slash7; Mint 0%nat 0%nat 4; Mint 0%nat 0%nat 9] in
+  dsup s 0%nat = 12 /\ 12 * PREC <= dshares s (liq w_env) 0%nat.
 Proof.
-  exists [w_slash7; Mint 0%nat 0%nat 4]. split; [vm_compute; reflexivity|]. split.
-  - vm_compute. discriminate.
-  - vm_compute. intros H. apply H. reflexivity.
+  split.
+  - intros i. vm_compute. discriminate.
+  - vm_compute. split; [reflexivity|discriminate].
 Qed.
-Print Assumptions C12_backing_refuted.
 
-(* ... and without bound: a mint that leaves almost no tokens behind re-delegates at a rate
-   unrelated to the one it unbonded at; here 1 000 000 006 units are minted against
-   500 000 002.55 module shares. *)
-Theorem C12_backing_refuted_large :
-  let s := run w_env w_init [w_slash7; Undelegate 2%nat 0%nat 930000000; EndBlock false; Mint 0%nat 0%nat 930000006] in
-  dsup s 0%nat = 1000000006 /\ dshares s (liq w_env) 0%nat = 500000002556451613077578337.
-Proof. vm_compute. split; reflexivity. Qed.
-Print Assumptions C12_backing_refuted_large.
+(* On validators that are never slashed backing holds with equality and every conversion is
+   exact: rate one, whole-share delegations, supply * 10^18 = module shares. *)
+Theorem C12_backing_exact_unslashed :
+  forall e i ops s, env_wf e -> Inv e s -> R1 e s i -> Forall (no_slash_of i) ops -> R1 e (run e s ops) i.
+Proof. exact run_R1. Qed.
+Print Assumptions C12_backing_exact_unslashed.
 
 (** ** conversions move the stake and nothing else *)
 
@@ -58,7 +69,8 @@ Theorem C12_mint_moves_stake :
   forall e s a i amt s' minted, a <> liq e ->
   mint e s a i amt = Ok s' minted ->
   exists sh recv s1,
-    validate_unbond_amount s a i amt = Some sh /\ minted = dec_trunc_int sh /\
+    validate_unbond_amount s a i amt = Some sh /\
+    minted = Z.min (dec_trunc_int sh) (dec_trunc_int recv) /\ 0 < minted /\
     transfer_post e s s1 i a (liq e) sh recv /\
     vals s' = vals s1 /\ del s' = del s1 /\ bal s' = bal s /\ ubd s' = ubd s /\ redel s' = redel s /\
     sav s' = sav s /\ ern s' = ern s /\
@@ -76,21 +88,76 @@ Theorem C12_burn_moves_stake :
 Proof. exact burn_spec. Qed.
 Print Assumptions C12_burn_moves_stake.
 
-(** ** never an empty delegation *)
+(* What a mint can cost: the units minted never exceed the shares the module gained, and unless
+   the mint unbonds every share of the validator the shares given up that did not arrive obey
+   (sh - gained) * T' < S + T' (S the validator's shares before, 0 < T' <= tokens the tokens left
+   in the validator between unbond and re-delegation): below S/T' + 1e-18 shares. *)
+Theorem C12_mint_shortfall_bound :
+  forall e s a i amt s' minted,
+  env_wf e -> Inv e s -> (a < nacc e)%nat -> a <> liq e ->
+  mint e s a i amt = Ok s' minted ->
+  let gained := dshares s' (liq e) i - dshares s (liq e) i in
+  exists sh, validate_unbond_amount s a i amt = Some sh /\ 0 < minted /\ minted * PREC <= sh /\ minted * PREC <= gained /\
+    (v_shares (vals s i) - sh <> 0 ->
+     exists T', 0 < T' <= v_tokens (vals s i) /\ (sh - gained) * T' < v_shares (vals s i) + T').
+Proof. exact mint_shortfall. Qed.
+Print Assumptions C12_mint_shortfall_bound.
 
-(* Refuted: on the slashed validator one derivative unit is worth 0.93 ukava, truncated to 0;
-   BurnDerivative(1) by a holder without a delegation re-delegates 0 tokens and stores a
-   delegation with zero shares. *)
-Theorem C12_no_empty_delegation_refuted :
+(* the staked value owned by the user (delegation shares + derivative units, valued by the
+   validator record): unchanged exactly on a validator at exchange rate one *)
+Theorem C12_value_preserved_rate_one :
+  forall e s a i amt s' minted,
+  env_wf e -> Inv e s -> rate1 s i -> (a < nacc e)%nat -> a <> liq e ->
+  mint e s a i amt = Ok s' minted ->
+  owned s' a i = owned s a i /\ vals s' i = vals s i /\ staked_value s' a i = staked_value s a i /\
+  minted * PREC = dshares s a i - dshares s' a i /\
+  dshares s' (liq e) i = dshares s (liq e) i + minted * PREC.
+Proof.
+  intros e s a i amt s' minted Hwf HI Hr Ha Hne Hm.
+  destruct (mint_rate1_value e s a i amt s' minted Hwf HI Hr Ha Hne Hm) as (Ho & Hv & H1 & H2).
+  repeat split; auto. unfold staked_value. now rewrite Ho, Hv.
+Qed.
+Print Assumptions C12_value_preserved_rate_one.
+
+(** ** never an empty delegation: for a validator whose shares are worth less than 5*10^17 tokens
+    each (every validator created by CreateValidator starts at one token per share and slashing
+    only lowers it) a transfer never leaves a zero-share delegation behind: the sender's record
+    is removed when it reaches zero, the receiver's record is either untouched or grows by a
+    positive amount, and nobody else's record changes *)
+Theorem C12_no_empty_delegation :
+  forall e s i from to sh s' recv,
+  from <> to -> (from < nacc e)%nat -> Inv e s ->
+  2 * v_tokens (vals s i) <= v_shares (vals s i) ->
+  transfer_delegation e s i from to sh = Ok s' recv ->
+  del s' from i <> Some 0 /\ (del s' to i = Some 0 -> del s to i = Some 0) /\
+  forall x j, (x <> from /\ x <> to) \/ j <> i -> del s' x j = del s x j.
+Proof. exact transfer_no_empty_delegation. Qed.
+Print Assumptions C12_no_empty_delegation.
+
+(* the case that created an empty delegation before the fix: one unit worth 0.93 ukava is
+   burned, the burn succeeds, returns zero shares and stores no delegation *)
+Example C12_no_empty_delegation_unit_burn :
   let s := run w_env w_init [w_slash7; Mint 0%nat 0%nat 1000; SendD 0%nat 1%nat 0%nat 5] in
   del s 1%nat 0%nat = None /\
-  exists s' r, step w_env s (Burn 1%nat 0%nat 1) = Ok s' r /\ del s' 1%nat 0%nat = Some 0.
-Proof. vm_compute. split; [reflexivity|]. eexists. eexists. split; reflexivity. Qed.
-Print Assumptions C12_no_empty_delegation_refuted.
+  exists s', step w_env s (Burn 1%nat 0%nat 1) = Ok s' (OShares 0) /\ del s' 1%nat 0%nat = None /\
+             dbal s' 1%nat 0%nat = dbal s 1%nat 0%nat - 1.
+Proof. vm_compute. split; [reflexivity|]. eexists. repeat split; reflexivity. Qed.
+
+(** ** every holder can redeem.  Backing gives the shares; one refusal remains: when the module
+    account is the last delegator of an unbonded validator, burning all remaining units removes
+    the validator inside Unbond and the re-delegation fails; all but one unit can be redeemed. *)
+Theorem C12_redeem_refuted :
+  let s := run w_env w_init [Mint 0%nat 0%nat 1000000007; Undelegate 2%nat 0%nat 1000000000; EndBlock false; EndBlock true] in
+  dbal s 0%nat 0%nat = 1000000007 /\ dshares s (liq w_env) 0%nat = 1000000007 * PREC /\
+  class_of (step w_env s (Burn 0%nat 0%nat 1000000007)) = RErr /\
+  class_of (step w_env s (Burn 0%nat 0%nat 1000000006)) = ROk.
+Proof. vm_compute. repeat split; reflexivity. Qed.
+Print Assumptions C12_redeem_refuted.
 
 (** ** guards *)
 
-(* an incoming redelegation of the sender blocks the transfer, hence every mint *)
+(* an incoming redelegation of the party whose delegation is unbonded blocks the transfer,
+   hence every mint by that delegator *)
 Theorem C12_guard_redelegation_transfer :
   forall e s i from to sh, redel s from i = true -> transfer_delegation e s i from to sh = Err.
 Proof. exact transfer_refused_redelegation. Qed.
@@ -100,16 +167,6 @@ Theorem C12_guard_redelegation_mint :
   forall e s a i amt, redel s a i = true -> mint e s a i amt = Err.
 Proof. exact mint_refused_redelegation. Qed.
 Print Assumptions C12_guard_redelegation_mint.
-
-(* Read literally ("conversions are refused while the delegator has an incoming redelegation")
-   the clause also covers burns; the code checks the sender of the shares only, which for a
-   burn is the module account: a holder with an incoming redelegation can burn. *)
-Theorem C12_guard_redelegation_burn_refuted :
-  let s := run w_env w_init [Mint 0%nat 0%nat 1000; SendD 0%nat 3%nat 0%nat 10; Redelegate 3%nat 1%nat 0%nat 500] in
-  redel s 3%nat 0%nat = true /\ class_of (step w_env s (Burn 3%nat 0%nat 10)) = ROk /\
-  class_of (step w_env s (Mint 3%nat 0%nat 10)) = RErr.
-Proof. vm_compute. repeat split; reflexivity. Qed.
-Print Assumptions C12_guard_redelegation_burn_refuted.
 
 (* a transfer (hence a mint) by the operator that would leave the self delegation worth less
    than MinSelfDelegation is refused *)
@@ -130,6 +187,14 @@ Theorem C12_guard_min_self_delegation_mint :
 Proof. exact mint_refused_min_self. Qed.
 Print Assumptions C12_guard_min_self_delegation_mint.
 
+(* the guards are not vacuous: the same user mints before and is refused after a redelegation *)
+Example C12_guards_nonvacuous :
+  let s := run w_env w_init [Mint 0%nat 0%nat 1000; SendD 0%nat 3%nat 0%nat 10; Redelegate 3%nat 1%nat 0%nat 500] in
+  redel s 3%nat 0%nat = true /\ class_of (step w_env s (Mint 3%nat 0%nat 10)) = RErr /\
+  class_of (step w_env w_init (Mint 0%nat 0%nat 10)) = ROk /\
+  class_of (step w_env w_init (Mint 2%nat 0%nat 1000000000)) = RErr.
+Proof. vm_compute. repeat split; reflexivity. Qed.
+
 (* a failed operation leaves no change *)
 Theorem C12_failed_changes_nothing :
   forall e s o, (forall s' u, step e s o <> Ok s' u) -> step' e s o = s.
@@ -141,12 +206,56 @@ Print Assumptions C12_failed_changes_nothing.
 
 (** ** the tally *)
 
-(* Refuted: once validator 0 is jailed its delegators carry no power but the holder of its
-   derivatives still votes with 900 000 000 — more than the whole bonded stake (1 000 000),
-   and the proposal passes. *)
-Theorem C12_tally_bounded_refuted :
+(* The power counted on account of one bonded validator — its voting delegators' shares [ds], its
+   voting derivative holders' units [hs] and, if it voted, its own remaining shares — never exceeds
+   its tokens, up to half a unit of 10^-18 per rounded term, provided the voters' shares and
+   units together do not exceed the validator's shares (which backing + the staking invariant
+   DelegatorShares = sum of delegations guarantee). *)
+Theorem C12_tally_bounded_per_validator :
+  forall v ds hs voted,
+  (forall d, In d ds -> 0 <= d) -> (forall h, In h hs -> 0 <= h) ->
+  0 <= v_tokens v -> 0 < v_shares v ->
+  zsum ds + zsum (map dec_of_int hs) <= v_shares v ->
+  2 * counted_for v ds hs voted <= 2 * dec_of_int (v_tokens v) + Z.of_nat (length ds) + 1.
+Proof. exact counted_for_bound. Qed.
+Print Assumptions C12_tally_bounded_per_validator.
+
+(* only while bonded: after validator 0 is jailed (the history that let 900 000 000 votes pass a
+   proposal against 1 000 000 bonded before the fix) its derivative holder counts nothing *)
+Example C12_tally_only_while_bonded :
   let s := run w_env w_init [Mint 0%nat 0%nat 900000000; Jail 0%nat; EndBlock false] in
   total_bonded w_env s = 1000000 /\
-  exists t, tally w_env s [(0%nat, [(0%nat, PREC)])] = Some t /\ counted t = 900000000 /\ r_passes t = true.
+  exists t, tally w_env s [(0%nat, [(0%nat, PREC)])] = Some t /\ counted t = 0 /\ r_passes t = false.
 Proof. vm_compute. split; [reflexivity|]. eexists. repeat split; reflexivity. Qed.
-Print Assumptions C12_tally_bounded_refuted.
+
+(* while bonded the holder's units, the remaining delegators and the validator add up to the
+   validator's tokens exactly *)
+Example C12_tally_counts_bonded :
+  let s := run w_env w_init [Mint 0%nat 0%nat 900000000] in
+  exists t, tally w_env s [(0%nat, [(0%nat, PREC)]); (2%nat, [(2%nat, PREC)])] = Some t /\
+            r_yes t = 1000000007 /\ r_no t = 1000000000 /\ counted t = 2000000007 /\ total_bonded w_env s = 2001000007.
+Proof. vm_compute. eexists. repeat split; reflexivity. Qed.
+
+(* Counted once, wherever held: the tally depends on a voter's derivatives only through
+   wallet + savings + earn, so moving them between the three changes no result. *)
+Theorem C12_derivative_counted_once :
+  forall e s s' votes,
+  (forall i, vals s' i = vals s i) -> (forall a i, del s' a i = del s a i) ->
+  (forall a i, held s' a i = held s a i) ->
+  tally e s' votes = tally e s votes.
+Proof. exact tally_ext. Qed.
+Print Assumptions C12_derivative_counted_once.
+
+Theorem C12_custody_keeps_tally :
+  forall e s p a i amt s' votes,
+  (stash s p a i amt = Ok s' tt \/ unstash s p a i amt = Ok s' tt) -> tally e s' votes = tally e s votes.
+Proof. intros e s p a i amt s' votes [H|H]; [eapply stash_tally|eapply unstash_tally]; eauto. Qed.
+Print Assumptions C12_custody_keeps_tally.
+
+(* A derivative position of h units carries the power a delegation of h shares would carry,
+   up to the truncation to whole tokens: 0 <= delegation power - derivative power <= 1 token. *)
+Theorem C12_derivative_power_matches_delegation :
+  forall v h, 0 <= h -> 0 <= v_tokens v -> 0 < v_shares v ->
+  0 <= delegation_power v (dec_of_int h) - dec_of_int (derivative_value v h) <= PREC.
+Proof. exact derivative_power_close. Qed.
+Print Assumptions C12_derivative_power_matches_delegation.
